@@ -131,9 +131,24 @@ package nfa
 //@   loop 1: decreases rangelen - rangeindex
 
 //@ uninterpreted spec func btFound(b *BoundedBacktracker, longest bool, h []byte, at int) bool
+// The engine builds a second backtracker from an NFA in which `.` is [\x00-\x7F]: its answers are the pattern's only on
+// pure-ASCII input. btAsciiOnly names that property of a backtracker (ASSUMED for the engine's two instances, see meta:
+// btOK); every search entry point requires ASCII input of such a backtracker, so a dispatcher that consults it behind
+// an incomplete ASCII test fails a precondition.
+//@ uninterpreted spec func btAsciiOnly(b *BoundedBacktracker) bool
+//@ spec func allASCIIb(h []byte) bool = forall k :: 0 <= k && k < len(h) ==> h[k] < 128
+//@ trusted func (*BoundedBacktracker).Search
+//@   requires wfBT(b) && b.nfa != nil && len(haystack) <= 140737488355328 && (btAsciiOnly(b) ==> allASCIIb(haystack))
+//@   modifies b.internalState.*, family E:uint16
+//@   ensures result2 ==> 0 <= result0 && result0 <= result1 && result1 <= len(haystack)
+//@   ensures !result2 ==> result0 == -1 && result1 == -1
+//@ trusted func (*BoundedBacktracker).IsMatch
+//@   requires wfBT(b) && b.nfa != nil && len(haystack) <= 140737488355328 && (btAsciiOnly(b) ==> allASCIIb(haystack))
+//@   modifies b.internalState.*, family E:uint16
 //@ func (*BoundedBacktracker).SearchAtWithState
 //@   props C13 C07 C20
 //@   requires wfBT(b) && b.nfa != nil && stampsOK(state) && 0 <= at && at <= len(haystack) && len(haystack) <= 140737488355328
+//@   requires btAsciiOnly(b) ==> allASCIIb(haystack)
 //@   modifies state.*, state.Visited[*]
 //@   ensures result2 ==> at <= result0 && result0 <= result1 && result1 <= len(haystack)
 //@   ensures !result2 ==> result0 == -1 && result1 == -1
@@ -154,6 +169,7 @@ package nfa
 //@ func (*BoundedBacktracker).SearchWithState
 //@   props C13 C07
 //@   requires wfBT(b) && b.nfa != nil && stampsOK(state) && len(haystack) <= 140737488355328
+//@   requires btAsciiOnly(b) ==> allASCIIb(haystack)
 //@   modifies state.*, state.Visited[*]
 //@   ensures result2 ==> 0 <= result0 && result0 <= result1 && result1 <= len(haystack)
 //@   ensures !result2 ==> result0 == -1 && result1 == -1
@@ -163,6 +179,7 @@ package nfa
 //@   props C13 C07
 //@   trust ensures result == btFound(b, old(state.Longest), haystack, 0)
 //@   requires wfBT(b) && b.nfa != nil && stampsOK(state) && len(haystack) <= 140737488355328
+//@   requires btAsciiOnly(b) ==> allASCIIb(haystack)
 //@   modifies state.*, state.Visited[*]
 //@   ensures stampsOK(state)
 //@   loop 1: invariant 0 <= startPos && startPos <= len(haystack) + 1
@@ -484,6 +501,16 @@ package nfa
 //@   modifies p.*
 //@   ensures result2 == pvFoundAt(p, haystack, at)
 //@   ensures result2 ==> result0 == pvSpanStart(p, haystack, at) && result1 == pvSpanEnd(p, haystack, at)
+//@ trusted func (*PikeVM).SearchWithSlotTableAt
+//@   requires p != nil && 0 <= at
+//@   modifies p.*
+//@   ensures at <= len(haystack) ==> result2 == pvFoundAt(p, haystack, at)
+//@   ensures result2 ==> at <= len(haystack) && result0 == pvSpanStart(p, haystack, at) && result1 == pvSpanEnd(p, haystack, at) && at <= result0 && result0 <= result1 && result1 <= len(haystack)
+//@ trusted func (*PikeVM).SearchWithSlotTable
+//@   requires p != nil
+//@   modifies p.*
+//@   ensures result2 == pvFoundAt(p, haystack, 0)
+//@   ensures result2 ==> result0 == pvSpanStart(p, haystack, 0) && result1 == pvSpanEnd(p, haystack, 0) && 0 <= result0 && result0 <= result1 && result1 <= len(haystack)
 //@ trusted func (*PikeVM).IsMatch
 //@   requires p != nil
 //@   modifies p.*
